@@ -140,6 +140,10 @@ var familyCache = map[string][]map[string]interface{}{}
 
 // findFailingInput looks for an input of the real code that exhibits the failed obligation:
 // the property's witness family is enumerated against the real code (in-package test injected by overlay).
+// familyMode: "search" (something failed or could not be decided: every part of the family runs) or "beside" (quick
+// tier, everything proved: the expensive enumerations are left to the thorough tier). Passed to the harness as VERIF_MODE.
+var familyMode = "search"
+
 func (e *Engine) findFailingInput(prop, id string, obs []*Obligation, tier string, seed int) (bool, interface{}) {
 	found, wit := e.findFailingInputIn(propHarness[prop], prop, tier, seed)
 	if !found && propHarness2[prop] != "" {
@@ -150,7 +154,9 @@ func (e *Engine) findFailingInput(prop, id string, obs []*Obligation, tier strin
 	return found, wit
 }
 
-func (e *Engine) findFailingInputIn(hn, prop, tier string, seed int) (bool, interface{}) {
+func (e *Engine) findFailingInputIn(hn0, prop, tier string, seed int) (bool, interface{}) {
+	hn := hn0
+	cacheKey := hn0 + "/" + familyMode
 	if _, ok := harnesses[hn]; !ok {
 		return false, nil
 	}
@@ -158,14 +164,14 @@ func (e *Engine) findFailingInputIn(hn, prop, tier string, seed int) (bool, inte
 	if _, err := os.Stat(filepath.Join(e.VerifDir, "replay", h.Template)); err != nil {
 		return false, nil
 	}
-	ds, cached := familyCache[hn]
+	ds, cached := familyCache[cacheKey]
 	if !cached {
-		data, out, _ := e.runOverlayTest(h, "TestVerifFamily", map[string]string{"VERIF_FAMILY": prop, "VERIF_SEED": fmt.Sprint(seed), "VERIF_TIER": tier}, 300*time.Second)
+		data, out, _ := e.runOverlayTest(h, "TestVerifFamily", map[string]string{"VERIF_FAMILY": prop, "VERIF_SEED": fmt.Sprint(seed), "VERIF_TIER": tier, "VERIF_MODE": familyMode}, 300*time.Second)
 		if err := json.Unmarshal(data, &ds); err != nil {
-			familyCache[hn] = nil
+			familyCache[cacheKey] = nil
 			return false, map[string]string{"family_error": firstLines(out, 10)}
 		}
-		familyCache[hn] = ds
+		familyCache[cacheKey] = ds
 	}
 	kinds := kindsFor[prop]
 	for _, d := range ds {
